@@ -105,15 +105,22 @@ def innermost(tb):
     return frames[-1] if frames else ('?', '?', 0)
 
 
-def compile_monitor(text):
+CPU_LIMIT = 20.0      # seconds of this process's own CPU time per text
+
+
+def compile_monitor(text, parser=None):
     """returns (verdict, detail): verdict in accepted / rejected / violation
-    kinds ('crash:...', 'timeout', 'non-bool', 'no-line-number')"""
-    parser = Parser()
-    signal.setitimer(signal.ITIMER_REAL, 5.0)
+    kinds ('crash:...', 'timeout', 'non-bool', 'no-line-number').  "Finishes"
+    is restated as "within 20 s of CPU time" (texts are at most a few thousand
+    characters and normally compile in milliseconds); the timer counts the
+    process's own CPU time, so machine load does not decide."""
+    parser = parser or Parser()
+    signal.setitimer(signal.ITIMER_VIRTUAL, CPU_LIMIT)
     try:
         ok = parser.parse(text)
     except Timeout:
-        return 'timeout', 'compiler did not finish within 5 s'
+        return 'timeout', 'compiler did not finish within {} s of CPU ' \
+            'time'.format(CPU_LIMIT)
     except RecursionError:
         return 'crash:RecursionError', 'RecursionError'
     except Exception as ex:
@@ -121,7 +128,7 @@ def compile_monitor(text):
         return 'crash:{}:{}'.format(type(ex).__name__, f[1]), \
             '{}: {} at {}'.format(type(ex).__name__, ex, f)
     finally:
-        signal.setitimer(signal.ITIMER_REAL, 0)
+        signal.setitimer(signal.ITIMER_VIRTUAL, 0)
     if ok is True:
         return 'accepted', ''
     if ok is not False:
@@ -184,6 +191,9 @@ def execute_monitor(ctx, text, replay):
                       replay)
 
 
+SHARED = [Parser()]
+
+
 def judge(ctx, text, cls, must_reject=None):
     replay = {'class': cls, 'text': text}
     verdict, detail = compile_monitor(text)
@@ -194,6 +204,19 @@ def judge(ctx, text, cls, must_reject=None):
         ctx.violation('compiler:' + verdict, '{} | input: {!r}'.format(
             detail, text[:300]), replay)
         return verdict
+    # the same text through a compiler object that has seen every earlier
+    # text of this shard: "for every input text" leaves no room for history
+    used, _ = compile_monitor(text, SHARED[0])
+    if used != verdict:
+        ctx.violation('verdict-depends-on-earlier-texts:' + (
+            'accepted-instead-of-rejected' if used == 'accepted'
+            else 'rejected-instead-of-accepted' if used == 'rejected'
+            else used.split(':')[0]),
+            'a compiler that compiled other texts before says {!r}, a fresh '
+            'one {!r} | {}'.format(used, verdict, text[:300]), replay)
+        SHARED[0] = Parser()
+    else:
+        ctx.count('verdicts_equal_on_used_compiler')
     if verdict == 'accepted' and must_reject:
         ctx.violation('accepted:rule-broken:' + must_reject,
                       'rule "{}" broken but accepted | {}'.format(
@@ -373,6 +396,22 @@ def out_of_scope_names(prog):
     return inner - top
 
 
+def class_e(rng):
+    """long runs of one token or character: what makes a careless regular
+    expression or a recursive descent go exponential or overflow"""
+    k = rng.choice([20, 40, 80, 200, 500, 1500])
+    unit = rng.choice(['\\', '\\a', '\\"', '{', '(', '[', '-', '- ', '{ ',
+                       '( ', '[ f ', 'not ', '"', '"a', '#', '*', ':', '*:',
+                       '1', '1.', '.', '0:', 'a_', '%', '^ 2 ', '+ 1 ',
+                       'begin ', 'repeat ', 'if 1 ', 'define f ', 'and "a" ',
+                       'zone 1 ', 'é', '\t', '}', ')', ']', 'end '])
+    head = rng.choice(['', '"', 'print "', 'print { 1 ', 'set "a', 'hue ',
+                       'print ', 'time at ', 'define z "', 'printf "',
+                       'set "a" and "a" ', 'repeat '])
+    tail = rng.choice(['', '', '"', ' }', ' end', '\n"', ' x'])
+    return (head + unit * k + tail)[:4000]
+
+
 def class_d(rng):
     n = rng.randint(1, 60)
     data = bytes(rng.randrange(256) for _ in range(n))
@@ -406,7 +445,10 @@ def run_shard(ctx):
             ctx.count('rule:' + rule)
             judge(ctx, text, 'C', must_reject=rule)
         elif k == 7:
-            judge(ctx, class_d(rng), 'D')
+            if (i // (8 * ctx.nshards)) % 4 == 3:
+                judge(ctx, class_e(rng), 'E')
+            else:
+                judge(ctx, class_d(rng), 'D')
         if i % 5000 < ctx.nshards:
             ctx.sample({'class': 'A', 'text': class_a(rng)})
     ctx.sample({'class': 'C', 'text': class_c(rng, *base)[0][:300]})
@@ -424,7 +466,8 @@ POP = [
 def finalize(merged):
     c = merged['counters']
     for need in ('A:rejected', 'A:accepted', 'B:rejected', 'B:accepted',
-                 'C:rejected', 'D:rejected', 'accepted_executed'):
+                 'C:rejected', 'D:rejected', 'E:rejected',
+                 'verdicts_equal_on_used_compiler', 'accepted_executed'):
         if not c.get(need):
             merged['inconclusive'].append('class never observed: ' + need)
     merged['coverage_extra'] = {
@@ -445,4 +488,4 @@ def replay(doc):
     return 1 if ctx.violations else 0
 
 
-signal.signal(signal.SIGALRM, _alarm)
+signal.signal(signal.SIGVTALRM, _alarm)
